@@ -74,6 +74,49 @@ impl DocumentCursor {
             None
         }
     }
+
+    /// True if the identifier under the cursor is bound globally,
+    /// whatever the enclosing procedure declares:
+    /// it is the name of a global declaration (it follows `proc` or `type`)
+    /// or part of a type expression (it follows `:` or `of`).
+    fn is_global_position(&self) -> bool {
+        is_global_position(&self.doc.tokens, |token| token.range.contains(&self.index))
+    }
+}
+
+/// See `DocumentCursor::is_global_position`. The token is selected by `is_cursor`.
+fn is_global_position<F>(tokens: &[spl_frontend::tokens::Token], is_cursor: F) -> bool
+where
+    F: Fn(&spl_frontend::tokens::Token) -> bool,
+{
+    tokens.iter().position(is_cursor).map_or(false, |pos| {
+        tokens[..pos]
+            .iter()
+            .rev()
+            .find(|token| !matches!(token.token_type, TokenType::Comment(_)))
+            .map_or(false, |token| {
+                matches!(
+                    token.token_type,
+                    TokenType::Proc | TokenType::Type | TokenType::Colon | TokenType::Of
+                )
+            })
+    })
+}
+
+/// The table in which the identifier under the cursor is looked up inside a procedure.
+fn lookup_table_for<'a>(
+    global_table: &'a GlobalTable,
+    local_table: &'a LocalTable,
+    global_position: bool,
+) -> spl_frontend::table::LookupTable<'a> {
+    spl_frontend::table::LookupTable {
+        global_table: Some(global_table),
+        local_table: if global_position {
+            None
+        } else {
+            Some(local_table)
+        },
+    }
 }
 
 async fn get_doc(uri: Url, doctx: Sender<DocumentRequest>) -> Result<Option<AnalyzedSource>> {
